@@ -25,6 +25,9 @@ TRANSLATORS = [
     ("extract_sp3", "main"), ("extract_sinex", "main"), ("extract_antex", "main"), ("extract_effects", "main"),
     ("extract_writers", "main"), ("extract_siteinfo", "write"), ("extract_config", "write"),
     ("extract_c20", "generate"), ("extract_exprs", "generate"),
+    # added in the third session (each is also run by its property's check)
+    ("extract_timefmt", "generate"), ("extract_c05", "write_all"), ("extract_frames", "generate"),
+    ("extract_timeflow", "generate"), ("extract_timepurity", "generate"), ("extract_writer_effects", "main"),
 ]
 
 
